@@ -105,9 +105,9 @@ func (w *lruWorld) apply(o lruOp) (bm *roaring.Bitmap, ok bool) {
 		}
 	}()
 	if o.Get {
-		return w.cache.Get(o.Key)
+		return w.cache.Get(lruKey(o.Key))
 	}
-	w.cache.Put(o.Key, w.bms[o.Key][o.Class])
+	w.cache.Put(lruKey(o.Key), w.bms[o.Key][o.Class])
 	return nil, false
 }
 
@@ -137,6 +137,16 @@ func (m *lruModel) key() string {
 	return b.String()
 }
 
+// lruKey maps the key numbers 1..3 of the alphabet to the keys handed to the cache: key 3 is 1 + 2^32, congruent to
+// key 1 modulo every power of two up to 2^32 (a filter, a shard index or a truncated key derived from the low bits
+// must not confuse them).
+func lruKey(k uint64) uint64 {
+	if k == 3 {
+		return 1 + 1<<32
+	}
+	return k
+}
+
 // residency by black-box probing: replay ops on fresh caches and Get each key.
 func lruResident(cap uint64, metrics bool, ops []lruOp) map[uint64]*roaring.Bitmap {
 	res := map[uint64]*roaring.Bitmap{}
@@ -145,7 +155,7 @@ func lruResident(cap uint64, metrics bool, ops []lruOp) map[uint64]*roaring.Bitm
 		for _, o := range ops {
 			w.apply(o)
 		}
-		if bm, ok := w.cache.Get(k); ok {
+		if bm, ok := w.cache.Get(lruKey(k)); ok {
 			res[k] = w.identify(bm)
 		}
 	}
@@ -411,12 +421,46 @@ type c07Args struct {
 	Cap      uint64 `json:"cap"`
 	Metrics  bool   `json:"metrics"`
 	MaxDepth int    `json:"max_depth"`
+	Unmerged bool   `json:"unmerged,omitempty"` // every sequence to depth 6 over Get(k), Put(k,small): no state merging
 }
 
 func c07Worker(ctx *rt.Ctx, job *rt.Job) []*rt.Violation {
 	flk.Sequential(true) // single goroutine: a lock of updog or bbolt that cannot be taken now never will be (reported as a hang)
 	var a c07Args
 	job.Decode(&a)
+	if a.Unmerged {
+		// whatever an implementation remembers besides the list, the map and the byte counter (a memo of the last hit, a
+		// buffered queue of hits, a filter) cannot hide behind an equal state key here
+		var alpha []lruOp
+		for k := uint64(1); k <= 3; k++ {
+			alpha = append(alpha, lruOp{Get: true, Key: k}, lruOp{Key: k, Class: 1})
+		}
+		var vs []*rt.Violation
+		var rec func(ops []lruOp) bool
+		rec = func(ops []lruOp) bool {
+			if len(ops) > 0 {
+				c := lruCase{Cap: a.Cap, Metrics: a.Metrics, Ops: ops}
+				viol, _ := lruCheckLast(c)
+				ctx.Cov.Add("unmerged_sequences", 1)
+				ctx.Cov.Add("traces_validated_against_impl", 7)
+				if viol != "" {
+					vs = append(vs, rt.NewViolation("C07", "lru", c.sig(), c, "%s", viol))
+					return false
+				}
+			}
+			if len(ops) == 6 {
+				return true
+			}
+			for _, op := range alpha {
+				if !rec(append(append([]lruOp{}, ops...), op)) {
+					return false
+				}
+			}
+			return true
+		}
+		rec(nil)
+		return vs
+	}
 	alpha := lruAlphabet()
 	type node struct{ ops []lruOp }
 	seen := map[string]bool{}
@@ -485,11 +529,17 @@ func c07Run(ctx *rt.Ctx) []*rt.Violation {
 			jobs = append(jobs, rt.Job{Name: fmt.Sprintf("cap%d", cp), Args: args})
 		}
 	}
+	s := lruSizes[1]
+	for _, cp := range []uint64{s + 72, 2*s + 144, 200, 3*s + 216, 3*s + 300, 1 << 30} {
+		args, _ := json.Marshal(c07Args{Cap: cp, Metrics: true, Unmerged: true})
+		jobs = append(jobs, rt.Job{Name: fmt.Sprintf("unmerged-cap%d", cp), Args: args})
+	}
 	outs := rt.RunJobs(ctx, jobs, rt.SpawnOpt{})
 	vs := rt.Collect(ctx, outs, nil)
+	ctx.Cov.Note("unmerged", "every sequence of up to 6 operations over Get(k), Put(k,small) for the three keys, at 6 capacities (1, 2, 2+, 3, 3+ entries, ample), without state merging")
 	ctx.Cov.Note("capacities", lruCapacities())
 	ctx.Cov.Note("size_classes_bytes", lruSizes)
-	ctx.Cov.Note("alphabet", "Get(k), Put(k,class) for k in 1..3, class in empty/small/medium/large (15 operations)")
+	ctx.Cov.Note("alphabet", "Get(k), Put(k,class) for the keys 1, 2 and 1+2^32 (called 1..3), class in empty/small/medium/large (15 operations)")
 	ctx.Cov.Note("rule", "BFS to fixpoint per capacity over histories of the real LRUCache; state = dump of real internal state + model state; relations R1-R6 on every transition; residency by black-box Get probes on replayed copies")
 	ctx.Assumef("the future behaviour of the cache depends only on the recency-ordered (key, accounted size, bitmap size) list and the byte counter, which is what states are merged on")
 	ctx.Assumef("'fits'/'comfortably' are read generously as size+%d bytes per entry (real overhead 64): between that and the hard byte bound either behaviour is accepted", lruSlack)
